@@ -75,7 +75,11 @@ ConfFrame == [][(done' # <<>> /\ done'[1] # "wipe") => conf' = conf]_vars
 Idempotent == [][(Len(done) = 1 /\ Len(done') = 2 /\ done[1] = "entity") => (lref' = lref /\ tref' = tref)]_vars
 WipeClean == (done # <<>> /\ done[1] = "wipe") => (lref = {} /\ tref = {} /\ cexc = {} /\ conf = {"user.name"})
 
+(* a merge without a new fetch creates the entities that are only remote-tracked; the removed one is not among them *)
+AfterMerge(l, t) == l \cup {p[2] : p \in t}
+StaysRemoved == (done # <<>> /\ done[1] \in {"entity", "cache"}) => T \notin AfterMerge(lref, tref)
+
 SetSeq(S) == SetToSeq(S)
 Emit == Len(done) = 1 =>
-  PrintT(ToJson([via |-> done[1], remotes |-> SetSeq(remotes), before |-> [lref |-> SetSeq(c0.lref), tref |-> SetSeq(c0.tref)], after |-> [lref |-> SetSeq(lref), tref |-> SetSeq(tref), cexc |-> SetSeq(cexc)]]))
+  PrintT(ToJson([via |-> done[1], remotes |-> SetSeq(remotes), before |-> [lref |-> SetSeq(c0.lref), tref |-> SetSeq(c0.tref)], after |-> [lref |-> SetSeq(lref), tref |-> SetSeq(tref), cexc |-> SetSeq(cexc), merged |-> SetSeq(AfterMerge(cexc, tref))]]))
 =============================================================================
